@@ -512,4 +512,135 @@ theorem Pkt_unpack_bytes (p t : Pkt) (h : Pkt_WF p) (hs : p.sync = 0x47)
       simp only [ha, hr, hd5, hpos, if_true, hsl, hu]
       simp [Pkt_decoded, hasAF, ha, hx]
   
+/-- `decOff_encAll` with a decoded value that is a function of the encoded record -/
+theorem decOff_map (dec1 : Bytes → R (β × Nat)) (more : Nat → Nat → Bool) (enc1 : α → Bytes) (g : α → β)
+    (xs : List α) (pre : Bytes) (fuel : Nat) (hfuel : xs.length < fuel)
+    (hdec : ∀ x ∈ xs, ∀ rest, dec1 (enc1 x ++ rest) = .ok (g x, (enc1 x).length))
+    (hmore : ∀ x ∈ xs, ∀ (p q : Bytes), more p.length (p ++ (enc1 x ++ q)).length = true)
+    (hstop : ∀ n, more n n = false) :
+    decOff dec1 more (pre ++ xs.flatMap enc1) fuel pre.length = .ok (xs.map g) := by
+  induction xs generalizing pre fuel with
+  | nil =>
+    cases fuel with
+    | zero => simp at hfuel
+    | succ fuel => simp [decOff, hstop]
+  | cons x xs ih =>
+    cases fuel with
+    | zero => simp at hfuel
+    | succ fuel =>
+      unfold decOff
+      have hm := hmore x (by simp) pre (xs.flatMap enc1)
+      simp only [List.flatMap_cons] at hm ⊢
+      rw [hm]
+      simp only [if_true, List.drop_left']
+      rw [hdec x (by simp) (xs.flatMap enc1)]
+      simp only
+      have := ih (pre ++ enc1 x) fuel (by simp at hfuel; omega)
+        (fun y hy => hdec y (by simp [hy])) (fun y hy => hmore y (by simp [hy]))
+      simp only [List.append_assoc, List.length_append] at this
+      rw [this]
+      simp
+
+/-- a buffer made of 188-byte chunks, each accepted by `MPEGPacket.unpack`, decodes to one packet per
+    chunk, in order, each as if decoded alone by a fresh object -/
+theorem TS_unpack_chunks (t : TS) (cs : List Bytes) (hlen : ∀ c ∈ cs, c.length = 188)
+    (hok : ∀ c ∈ cs, (Pkt.unpack Pkt.fresh c).2 = .ok ()) :
+    TS.unpack t (cs.flatMap id) = ({ blocks := cs.map fun c => (Pkt.unpack Pkt.fresh c).1 }, .ok true) := by
+  have hge : cs.length ≤ (cs.flatMap id).length := by
+    clear hok
+    induction cs with
+    | nil => simp
+    | cons c cs ih =>
+      have := hlen c (by simp)
+      have := ih (fun d hd => hlen d (by simp [hd]))
+      simp only [List.flatMap_cons, List.length_append, List.length_cons, id]; omega
+  have := decOff_map decBlock moreBlocks id (fun c => (Pkt.unpack Pkt.fresh c).1) cs [] ((cs.flatMap id).length + 1)
+    (by omega)
+    (fun c hc rest => by
+      have hl := hlen c hc
+      have htake : List.take 188 (c ++ rest) = c := take_append_len _ _ _ hl.symm
+      have := hok c hc
+      simp only [decBlock, id, htake, hl]
+      cases hu : Pkt.unpack Pkt.fresh c with
+      | mk p r =>
+        rw [hu] at this
+        simp only at this
+        subst this
+        rfl)
+    (fun c hc p q => by
+      have hl := hlen c hc
+      simp [moreBlocks, id, hl]; omega)
+    (fun n => by simp [moreBlocks])
+  simp only [List.nil_append, List.length_nil] at this
+  simp only [TS.unpack, this]
+
+theorem Ext_packed_WF (e : Ext) (h : Ext_WF e) : Ext_WF (Ext_packed e) := h
+
+theorem AF_packed_WF (a : AF) (h : AF_WF a) : AF_WF (AF_packed a) ∧ AF_bytes (AF_packed a) = AF_bytes a := by
+  obtain ⟨hp, ho, hs, hd, hx, f1, f2, f3, f4, f5, hlen⟩ := h
+  have hext : AF_extb (AF_packed a) = AF_extb a := by
+    unfold AF_extb AF_packed; cases a.adaption_extension <;> rfl
+  have hdl : AF_dataLen (AF_packed a) = AF_dataLen a := by
+    unfold AF_dataLen; rw [hext]; rfl
+  have hlb : AF_lenByte (AF_packed a) = AF_lenByte a := by
+    have hge : AF_dataLen a ≤ AF_lenByte a := by unfold AF_lenByte; split <;> omega
+    have : AF_lenByte (AF_packed a) = if AF_lenByte a > AF_dataLen a then AF_lenByte a else AF_dataLen a := by
+      unfold AF_lenByte; rw [hdl]; rfl
+    rw [this]; split <;> omega
+  have hfb : AF_flagsByte (AF_packed a) = AF_flagsByte a := by
+    unfold AF_flagsByte AF_packed; cases a.adaption_extension <;> rfl
+  refine ⟨⟨hp, ho, hs, hd, ?_, ?_, ?_, ?_, ?_, ?_, by rw [hlb]; exact hlen⟩, ?_⟩
+  · intro x hxx
+    simp only [AF_packed, Option.map_eq_some_iff] at hxx
+    obtain ⟨y, hy, rfl⟩ := hxx
+    exact Ext_packed_WF y (hx y hy)
+  · intro h; simpa [AF_packed] using h
+  · intro h; simpa [AF_packed] using h
+  · intro h; simpa [AF_packed] using h
+  · intro h; simpa [AF_packed] using h
+  · intro h; simpa [AF_packed] using h
+  · unfold AF_bytes; rw [hlb, hfb, hext, hdl]; rfl
+
+theorem Pkt_af_decoded (p : Pkt) (h : Pkt_WF p) : Pkt_af (Pkt_decoded p) = Pkt_af p := by
+  have e2 : (Pkt_decoded p).adaption_field = if hasAF p then p.adaption_field.map AF_packed else none := rfl
+  by_cases haf : hasAF p
+  · have haf' : hasAF (Pkt_decoded p) := haf
+    rw [Pkt_af, Pkt_af, if_pos haf, if_pos haf', e2, if_pos haf]
+    cases hx : p.adaption_field with
+    | none => rfl
+    | some a => simp [(AF_packed_WF a (h.2.2.2.2.2.2 a hx)).2]
+  · have haf' : ¬ hasAF (Pkt_decoded p) := haf
+    rw [Pkt_af, Pkt_af, if_neg haf, if_neg haf']
+
+/-- the decoded packet is well formed and (when the format can express it: no payload with
+    adaptation control 0 or 2) encodes to the same bytes -/
+theorem Pkt_decoded_bytes (p : Pkt) (h : Pkt_WF p) (hf : Pkt_used p ≤ 188) :
+    Pkt_WF (Pkt_decoded p) ∧
+    (((p.adaption_ctrl = 0 ∨ p.adaption_ctrl = 2) → p.payload = []) → Pkt_bytes (Pkt_decoded p) = Pkt_bytes p) := by
+  have haf := Pkt_af_decoded p h
+  obtain ⟨h1, h2, h3, h4, h5, h6, h7⟩ := h
+  constructor
+  · refine ⟨h1, h2, h3, h4, h5, h6, ?_⟩
+    intro a ha
+    simp only [Pkt_decoded] at ha
+    split at ha
+    · simp only [Option.map_eq_some_iff] at ha
+      obtain ⟨y, hy, rfl⟩ := ha
+      exact (AF_packed_WF y (h7 y hy)).1
+    · simp at ha
+  · intro hpl
+    have hhdr : Pkt_hdr (Pkt_decoded p) = Pkt_hdr p := rfl
+    unfold Pkt_bytes Pkt_used
+    rw [haf, hhdr]
+    by_cases hc : p.adaption_ctrl = 1 ∨ p.adaption_ctrl = 3
+    · have hpay : (Pkt_decoded p).payload = p.payload ++ Pkt_stuffing p := by simp [Pkt_decoded, hc]
+      rw [hpay]
+      have : 188 - (4 + (Pkt_af p).length + (p.payload ++ Pkt_stuffing p).length) = 0 := by
+        simp [Pkt_stuffing, Pkt_used] at hf ⊢; omega
+      rw [this]
+      simp [Pkt_stuffing, Pkt_used]
+    · have h02 : p.adaption_ctrl = 0 ∨ p.adaption_ctrl = 2 := by omega
+      have hpay : (Pkt_decoded p).payload = [] := by simp [Pkt_decoded, hc]
+      rw [hpay, hpl h02]
+
 end Acra.Lemmas.MPEGTS
